@@ -38,13 +38,13 @@ func (c14) runs(tier string) (cli, inproc int) {
 	return 8, 60
 }
 func (c14) Rule() string {
-	return "case = (grammar, option set) with option sets go, go -u, go -o, go -o -u, typescript; the real CLI is run R times in separate processes (quick 8, thorough 30) and the generator is run N more times in-process (quick 60, thorough 200) on the same file; Go re-randomises map iteration on every range statement, which plays the role of the schedule; all output files are hashed and the number of distinct outputs must be 1; grammars have many symbols, tied row frequencies and states with several successors so that an order dependence shows up with high probability per run; non-trivial = case whose grammar has >= 10 symbols and >= 8 states; distinct by (grammar text, option set)"
+	return "case = (grammar, option set) with option sets go, go -u, go -o, go -o -u, typescript; the real CLI is run R times in separate processes (quick 8, thorough 30) and the generator is run N more times in-process (quick 60, thorough 200) on the same file; Go re-randomises map iteration on every range statement, which plays the role of the schedule; all output files are hashed and the number of distinct outputs must be 1; grammars have many symbols, tied row frequencies and states with several successors so that an order dependence shows up with high probability per run; non-trivial = case whose grammar has >= 6 symbols and >= 6 states; distinct by (grammar text, option set)"
 }
 func (c14) Assumptions() []string {
 	return []string{"stdout of the generator (conflict warnings, debug listing) is not an output file and is not compared", "held on the runs observed: a dependence that flips with probability p per run is missed with probability (1-p)^(runs-1)"}
 }
 func (c14) DiedIsViolation() bool      { return false }
-func (c14) MinNontrivial(t string) int { return 20 }
+func (c14) MinNontrivial(t string) int { return 10 }
 
 // tieSites counts rows of the action part and columns of the goto part in which two or more
 // different values share the highest frequency (the places where "most frequent value" needs a
@@ -125,8 +125,12 @@ func c14Grammar(seed int64, gi int) *spec.Grammar {
 		return best
 	}
 	for {
-		g := gen.Rich(r, gen.RichCfg{IntTags: true, Names: gi%2 == 0})
+		g := gen.Rich(r, gen.RichCfg{IntTags: true, Names: gi%2 == 0, EOFAlias: true})
 		if len(g.Tokens)+len(g.NTs) >= 8 {
+			if gi%8 == 0 {
+				// several names for the end marker (all declared with -1): identifiers that tie on their code
+				g.Tokens = append(g.Tokens, spec.Token{Name: "EndA", Num: -1, Decl: "token"}, spec.Token{Name: "EndB", Num: -1, Decl: "token"})
+			}
 			return g
 		}
 	}
@@ -215,7 +219,7 @@ func (p c14) Run(seed int64, tier string, idx int) Outcome {
 	}
 	b := yx.Build(text, false)
 	if b.OK() {
-		o.Nontrivial = len(b.Root.G.Symbols) >= 10 && len(b.Root.GTable) >= 8
+		o.Nontrivial = len(b.Root.G.Symbols) >= 6 && len(b.Root.GTable) >= 6
 	}
 	o.Hash = hashOf(text, fmt.Sprint(variant))
 	if idx < 2 {
